@@ -381,7 +381,11 @@ func RunCheck(o Options) int {
 	exhaustive := !cut && a.UnitsDone == sp.Units
 
 	// classify failures
-	known := LoadKnown(filepath.Join(o.Root, "KNOWN_FINDINGS.txt"), o.ID)
+	knownPath := filepath.Join(o.Root, "KNOWN_FINDINGS.txt")
+	if p := os.Getenv("VERIF_KNOWN"); p != "" {
+		knownPath = p // development only: an alternative known-findings file
+	}
+	known := LoadKnown(knownPath, o.ID)
 	var sigs []string
 	for s := range a.Fails {
 		sigs = append(sigs, s)
@@ -563,7 +567,7 @@ func Replay(path string) int {
 	}
 	var rp struct {
 		Property, Tier, Case, Clause, Site string
-		Seed, Unit                          int64
+		Seed, Unit                         int64
 	}
 	if err := json.Unmarshal(b, &rp); err != nil {
 		fmt.Fprintln(os.Stderr, err)
